@@ -1,7 +1,7 @@
 (* Proofs/NetSim.v — C13: what the tracker does with each line a conformant server sends
    ([LineSend.expected] of the messages built by Model/Net.v's [mk]), line by line. *)
 From Verif Require Import TrackerSpec TrackerSpecFacts StateHandlers Net NetObs NetProofs NetHandlers.
-From Verif Require GoBytes LineLib Line LineSend.
+From Verif Require GoBytes LineLib Line LineSend LineSendFacts.
 Open Scope Z_scope.
 
 Definition src_nick (s : LineSend.source) : bytes :=
@@ -163,4 +163,252 @@ Proof.
     cbn [fst ts_me ts_nicks ts_chans ts_member na_ident na_host na_name na_modes].
     unfold v_set_nicks. rewrite insert_insert. reflexivity.
   - unfold nick_snapshot. rewrite Ln. by case_decide.
+Qed.
+
+(* ---------- 353: one NAMES token = one [v_reveal_name] ---------- *)
+Definition name_good (n : name) : Prop := n <> [] /\ first_in n [126;38;64;37;43]%N = false.
+
+Lemma tstate_eta t : {| ts_me := ts_me t; ts_nicks := ts_nicks t; ts_chans := ts_chans t; ts_member := ts_member t |} = t.
+Proof. by destruct t. Qed.
+
+Lemma learn_step t n :
+  n <> [] -> (if is_some (snd (sp_GetNick t n)) then t else fst (sp_NewNick t n)) = v_learn_nick t n new_nickattr.
+Proof.
+  intros Hn. unfold sp_GetNick, nick_snapshot, sp_NewNick, v_learn_nick. simpl.
+  destruct (ts_nicks t !! n) eqn:L; simpl; [done|]. by destruct n.
+Qed.
+
+Lemma assoc_step t cn n :
+  chanT t cn -> nickT t n ->
+  (if snd (snd (sp_IsOn t cn n)) then t else fst (sp_Associate t cn n))
+  = v_set_member t (<[(cn, n) := default no_privs (ts_member t !! (cn, n))]> (ts_member t)).
+Proof.
+  intros [a Ha] [b Hb]. unfold sp_IsOn, sp_Associate, v_set_member. rewrite Ha, Hb.
+  destruct (ts_member t !! (cn, n)) as [p|] eqn:L; simpl.
+  - rewrite insert_id by done. by rewrite tstate_eta.
+  - done.
+Qed.
+
+Lemma learn_step_h s n :
+  n <> [] ->
+  (if is_some (snd (sp_GetNick (h_trk s) n)) then s else tr_ s (fun t => sp_NewNick t n))
+  = {| h_trk := v_learn_nick (h_trk s) n new_nickattr; h_out := h_out s |}.
+Proof.
+  intros Hn. rewrite <- (learn_step _ n Hn). destruct s as [t out]. unfold tr_, tr. simpl.
+  by destruct (is_some _).
+Qed.
+Lemma assoc_step_h s cn n :
+  chanT (h_trk s) cn -> nickT (h_trk s) n ->
+  (if snd (snd (sp_IsOn (h_trk s) cn n)) then s else tr_ s (fun t => sp_Associate t cn n))
+  = {| h_trk := v_set_member (h_trk s) (<[(cn, n) := default no_privs (ts_member (h_trk s) !! (cn, n))]> (ts_member (h_trk s)));
+       h_out := h_out s |}.
+Proof.
+  intros Hc Hn. rewrite <- (assoc_step _ cn n Hc Hn). destruct s as [t out]. unfold tr_, tr. simpl.
+  by destruct (snd (snd _)).
+Qed.
+
+Lemma priv_letter_cases p x : highest_letter p = Some x ->
+  x = 113%N \/ x = 97%N \/ x = 111%N \/ x = 104%N \/ x = 118%N.
+Proof. unfold highest_letter. destruct (cp_q p), (cp_a p), (cp_o p), (cp_h p), (cp_v p); intros H; inversion H; auto. Qed.
+
+Lemma mode_step t cn x n p0 a :
+  ts_chans t !! cn = Some a -> ts_member t !! (cn, n) = Some p0 ->
+  x = 113%N \/ x = 97%N \/ x = 111%N \/ x = 104%N \/ x = 118%N ->
+  fst (sp_ChannelModes t cn [43%N; x] [n])
+  = v_set_member t (<[(cn, n) := default p0 (priv_char x true p0)]> (ts_member t)).
+Proof.
+  intros Ha Hp Hx. unfold sp_ChannelModes. rewrite Ha. unfold chan_parse_modes.
+  assert (E : fold_left (chan_parse_char cn) [43%N; x] (Build_pstate false [n] (ca_modes a) (ts_member t))
+              = Build_pstate true [] (ca_modes a) (<[(cn, n) := default p0 (priv_char x true p0)]> (ts_member t))).
+  { destruct Hx as [->|[->|[->|[-> | ->]]]]; simpl; unfold chan_parse_char; simpl; rewrite Hp; reflexivity. }
+  rewrite E. simpl. unfold v_set_member. f_equal. destruct a. simpl. by apply insert_id.
+Qed.
+
+Lemma slice_from_1 (c : N) (n : bytes) : GoBytes.slice_from (c :: n) 1 = GoBytes.Ok n.
+Proof.
+  unfold GoBytes.slice_from, GoBytes.len.
+  replace ((0 <=? 1) && (1 <=? Z.of_nat (length (c :: n)))) with true; [done|].
+  symmetry. apply andb_true_intro. split; [done|]. apply Z.leb_le. simpl length. lia.
+Qed.
+Lemma byte_at_0 (c : N) (n : bytes) : GoBytes.byte_at (c :: n) 0 = GoBytes.Ok c.
+Proof.
+  unfold GoBytes.byte_at, GoBytes.len.
+  replace ((0 <=? 0) && (0 <? Z.of_nat (length (c :: n)))) with true; [done|].
+  symmetry. apply andb_true_intro. split; [done|]. apply Z.ltb_lt. simpl length. lia.
+Qed.
+
+Lemma learn_chans t n a : ts_chans (v_learn_nick t n a) = ts_chans t.
+Proof. unfold v_learn_nick. by destruct (ts_nicks t !! n). Qed.
+Lemma learn_member t n a : ts_member (v_learn_nick t n a) = ts_member t.
+Proof. unfold v_learn_nick. by destruct (ts_nicks t !! n). Qed.
+Lemma learn_known t n a : nickT (v_learn_nick t n a) n.
+Proof.
+  unfold v_learn_nick, nickT. destruct (ts_nicks t !! n) eqn:L; [rewrite L; eauto|]. simpl. rewrite lookup_insert; eauto.
+Qed.
+
+Lemma names_step_reveal cn s e :
+  chanT (h_trk s) cn -> name_good (fst e) ->
+  names_step cn (name_token e) s = HOk {| h_trk := v_reveal_name cn (h_trk s) e; h_out := h_out s |}.
+Proof.
+  intros Hc [Hne Hfirst]. destruct e as [n p]. cbn [fst snd] in Hne, Hfirst.
+  unfold name_token, prefix_bytes, v_reveal_name. cbn [fst snd].
+  pose proof (learn_known (h_trk s) n new_nickattr) as Hk.
+  assert (Hc1 : chanT (v_learn_nick (h_trk s) n new_nickattr) cn) by (unfold chanT; by rewrite learn_chans).
+  set (s1 := {| h_trk := v_learn_nick (h_trk s) n new_nickattr; h_out := h_out s |}).
+  destruct (highest_letter p) as [x|] eqn:Hx.
+  - (* a prefix: stripped, then "+x nick" *)
+    pose proof (priv_letter_cases p x Hx) as Cx.
+    unfold names_step. cbn [app].
+    replace (GoBytes.beq (prefix_of_letter x :: n) []) with false by done.
+    rewrite byte_at_0. cbn [pget].
+    assert (Pm : prefix_mode (prefix_of_letter x) = Some [43%N; x])
+      by (destruct Cx as [->|[->|[->|[-> | ->]]]]; reflexivity).
+    rewrite Pm. cbn [is_some]. rewrite slice_from_1. cbn [pget]. cbv zeta.
+    rewrite (learn_step_h s n Hne). fold s1.
+    rewrite (assoc_step_h s1 cn n Hc1 Hk). cbn [h_trk h_out s1].
+    set (t1 := v_learn_nick (h_trk s) n new_nickattr) in *.
+    set (p0 := default no_privs (ts_member t1 !! (cn, n))).
+    destruct Hc1 as [a Ha].
+    unfold tr_, tr. cbn [h_trk h_out fst].
+    rewrite (mode_step _ cn x n p0 a); [|exact Ha|simpl; by rewrite lookup_insert|exact Cx].
+    f_equal. f_equal. unfold v_set_member. simpl. rewrite insert_insert.
+    unfold with_highest. rewrite Hx. by destruct (priv_char x true p0).
+  - (* no prefix *)
+    unfold names_step. cbn [app].
+    destruct n as [|c0 n']; [done|].
+    replace (GoBytes.beq (c0 :: n') []) with false by done.
+    rewrite byte_at_0. cbn [pget].
+    assert (Pm : prefix_mode c0 = None).
+    { simpl in Hfirst. unfold GoBytes.mem_byte in Hfirst. simpl in Hfirst.
+      rewrite !orb_false_iff, !N.eqb_neq in Hfirst. destruct Hfirst as (H1 & H2 & H3 & H4 & H5 & _).
+      unfold prefix_mode. destruct c0 as [|q]; [done|].
+      do 7 (destruct q as [q|q|]; try done). }
+    rewrite Pm. cbn [is_some pget]. cbv zeta.
+    rewrite (learn_step_h s (c0 :: n') Hne). fold s1.
+    rewrite (assoc_step_h s1 cn (c0 :: n') Hc1 Hk).
+    cbn [h_trk h_out s1]. f_equal. f_equal. unfold with_highest. by rewrite Hx.
+Qed.
+
+Lemma reveal_chans cn t e : ts_chans (v_reveal_name cn t e) = ts_chans t.
+Proof. unfold v_reveal_name. simpl. by rewrite learn_chans. Qed.
+
+Lemma names_loop_reveal cn es : forall s,
+  chanT (h_trk s) cn -> Forall (fun e => name_good (fst e)) es ->
+  names_loop cn (map name_token es) s
+  = HOk {| h_trk := fold_left (v_reveal_name cn) es (h_trk s); h_out := h_out s |}.
+Proof.
+  induction es as [|e r IH]; intros s Hc Hg; [by destruct s|].
+  inversion Hg as [|? ? Hg1 Hg2]; subst. simpl. rewrite names_step_reveal by done.
+  rewrite IH; [done| |done]. simpl. unfold chanT. by rewrite reveal_chans.
+Qed.
+
+Lemma name_token_nospace e : ~ In 32%N (fst e) -> ~ In 32%N (name_token e).
+Proof.
+  intros H. unfold name_token, prefix_bytes. destruct (highest_letter (snd e)) as [x|] eqn:Hx; [|done].
+  simpl. intros [E|E]; [|done]. destruct (priv_letter_cases _ _ Hx) as [->|[->|[->|[-> | ->]]]]; done.
+Qed.
+
+Lemma line_353 t me c es :
+  es <> [] -> Forall (fun e => name_good (fst e) /\ ~ In 32%N (fst e)) es ->
+  step_line t (LineSend.expected (names_msg me c es))
+  = match ts_chans t !! c with Some _ => fold_left (v_reveal_name c) es t | None => t end.
+Proof.
+  intros Hne Hg. unfold names_msg.
+  verb_line srv v_353 [me; s_eqsym; c] (Some (GoBytes.join (map name_token es) [32%N])) St353.
+  rewrite (h_353_spec _ _ me s_eqsym c (GoBytes.join (map name_token es) [32%N])) by (by rewrite Ea).
+  unfold sp_GetChannel, chan_snapshot. cbn [snd h_trk st0].
+  destruct (ts_chans t !! c) as [a|] eqn:L; [|done]. cbn [sc_name].
+  rewrite LineSendFacts.split_byte_join.
+  - rewrite names_loop_reveal; [done|unfold chanT; simpl; rewrite L; eauto|].
+    eapply Forall_impl; [exact Hg|]. by intros e [? ?].
+  - destruct es; [done|]. done.
+  - rewrite List.Forall_map. rewrite List.Forall_forall. intros e He.
+    rewrite Forall_forall in Hg. apply name_token_nospace. apply (Hg e). by apply elem_of_list_In.
+Qed.
+
+(* ---------- JOIN ---------- *)
+Lemma line_JOIN_other t n u h c :
+  chanT t c -> n <> [] -> ts_member t !! (c, n) = None ->
+  step_line t (LineSend.expected (mk (LineSend.SrcUser n u h) v_JOIN [c] None))
+  = v_other_join t n c (Build_uinfo u h []).
+Proof.
+  intros Hc Hn Hp. verb_line (LineSend.SrcUser n u h) v_JOIN [c] (@None bytes) StJOIN.
+  pose proof (h_JOIN_spec _ (st0 t) c [] ltac:(by rewrite Ea)) as HJ. cbv zeta in HJ. rewrite HJ. clear HJ.
+  rewrite En, Ei, Eh. cbn [src_nick src_ident src_host h_trk st0].
+  replace (is_some (snd (sp_GetChannel t c))) with true by (symmetry; by apply GetChannel_some).
+  unfold v_other_join, v_learn_nick, sp_GetNick, nick_snapshot. cbn [snd ui_user ui_host].
+  destruct Hc as [a Ha].
+  destruct (ts_nicks t !! n) as [b|] eqn:Ln; cbn [is_some hres_st h_trk tr_ tr fst send]; change (h_trk (st0 t)) with t.
+  - unfold sp_Associate. rewrite Ha, Ln, Hp. done.
+  - unfold sp_NewNick. destruct n as [|x n']; [done|]. rewrite Ln. cbn [fst].
+    unfold sp_NickInfo. cbn [ts_nicks]. rewrite lookup_insert. cbn [fst].
+    unfold sp_Associate. cbn [ts_chans ts_nicks ts_member ts_me]. rewrite Ha, lookup_insert, Hp. cbn [fst].
+    unfold v_set_member, v_set_nicks. cbn. by rewrite insert_insert.
+Qed.
+
+Lemma line_JOIN_self t u h c :
+  nickT t (ts_me t) -> ts_chans t !! c = None -> c <> [] -> ts_member t !! (c, ts_me t) = None ->
+  step_line t (LineSend.expected (mk (LineSend.SrcUser (ts_me t) u h) v_JOIN [c] None))
+  = {| ts_me := ts_me t; ts_nicks := ts_nicks t; ts_chans := <[c := new_chanattr]> (ts_chans t);
+       ts_member := <[(c, ts_me t) := no_privs]> (ts_member t) |}.
+Proof.
+  intros [ma Hm] Hc Hne Hp. verb_line (LineSend.SrcUser (ts_me t) u h) v_JOIN [c] (@None bytes) StJOIN.
+  pose proof (h_JOIN_spec _ (st0 t) c [] ltac:(by rewrite Ea)) as HJ. cbv zeta in HJ. rewrite HJ. clear HJ.
+  rewrite En. cbn [src_nick h_trk st0].
+  replace (is_some (snd (sp_GetChannel t c))) with false
+    by (unfold sp_GetChannel, chan_snapshot; simpl; by rewrite Hc).
+  unfold sp_GetNick. cbn [snd].
+  rewrite (me_equals_snap t (ts_me t) ma Hm). rewrite bool_decide_eq_true_2 by done. cbn [negb].
+  unfold nick_snapshot. rewrite Hm. cbn [is_some hres_st h_trk tr_ tr fst send]. change (h_trk (st0 t)) with t.
+  unfold sp_NewChannel. destruct c as [|x c']; [done|]. rewrite Hc. cbn [fst].
+  unfold sp_Associate. cbn [ts_chans ts_nicks ts_member ts_me]. rewrite lookup_insert, Hm, Hp. done.
+Qed.
+
+(* ---------- chunks ---------- *)
+Lemma chunks_aux_concat {A} k (l : list A) : forall cur room,
+  concat (chunks_aux k cur room l) = rev cur ++ l.
+Proof.
+  induction l as [|x l IH]; intros cur room; simpl.
+  - destruct cur; simpl; [done|]. by rewrite !app_nil_r.
+  - destruct room; simpl; rewrite IH; simpl; by rewrite <- ?app_assoc.
+Qed.
+Lemma chunks_concat {A} k (l : list A) : concat (chunks k l) = l.
+Proof. unfold chunks. by rewrite chunks_aux_concat. Qed.
+Lemma chunks_aux_nonempty {A} k (l : list A) : forall cur room,
+  (room = 0%nat -> cur <> []) -> Forall (fun ch => ch <> []) (chunks_aux k cur room l).
+Proof.
+  induction l as [|x l IH]; intros cur room H; simpl.
+  - destruct cur as [|y cur]; [constructor|]. constructor; [|constructor].
+    intros E. apply (f_equal (@length A)) in E. rewrite rev_length in E. done.
+  - destruct room.
+    + constructor; [|by apply IH].
+      intros E. apply (f_equal (@length A)) in E. rewrite rev_length in E. destruct cur; [by apply H|done].
+    + by apply IH.
+Qed.
+Lemma chunks_nonempty {A} k (l : list A) : k <> 0%nat -> Forall (fun ch => ch <> []) (chunks k l).
+Proof. intros H. apply chunks_aux_nonempty. done. Qed.
+
+(* feeding several lines *)
+Lemma feed_nil t : feed t [] = t.
+Proof. done. Qed.
+Lemma feed_cons t m ms : feed t (m :: ms) = feed (step_line t (LineSend.expected m)) ms.
+Proof. done. Qed.
+Lemma feed_app t a b : feed t (a ++ b) = feed (feed t a) b.
+Proof. unfold feed, run_lines. by rewrite map_app, fold_left_app. Qed.
+
+(* all NAMES lines of a channel *)
+Lemma feed_names t me c (chs : list (list (name * privs))) :
+  is_Some (ts_chans t !! c) ->
+  Forall (fun ch => ch <> []) chs ->
+  Forall (fun e => name_good (fst e) /\ ~ In 32%N (fst e)) (concat chs) ->
+  feed t (map (names_msg me c) chs) = fold_left (v_reveal_name c) (concat chs) t.
+Proof.
+  revert t. induction chs as [|ch r IH]; intros t Hc Hne Hg; [done|].
+  inversion Hne as [|? ? Hne1 Hne2]; subst. simpl concat in *. apply Forall_app in Hg. destruct Hg as [Hg1 Hg2].
+  simpl map. rewrite feed_cons, line_353 by done.
+  destruct (ts_chans t !! c) as [a|] eqn:Ha; [|by destruct Hc].
+  rewrite fold_left_app. apply IH; [|done|done].
+  clear -Ha. revert t a Ha. induction ch as [|e ch IHc]; intros t a Ha; [simpl; rewrite Ha; eauto|].
+  simpl. assert (is_Some (ts_chans (v_reveal_name c t e) !! c)) as [a' Ha'] by (rewrite reveal_chans, Ha; eauto).
+  by apply (IHc _ a').
 Qed.
